@@ -29,11 +29,9 @@ def walk (evs : List Event) (h : Nat) : List Obs → (written acked : Nat) → (
 
 def sumBw (obs : List Obs) : Int := obs.foldl (fun a o => match o with | .bw n => a + n | _ => a) 0
 
-def closes (sc : Scenario) : Bool :=
-  let cl (ops : List ApiOp) := ops.any fun o => match o with
-    | .close => true | .err _ _ => true | .redir _ _ => true | .json _ _ => true | _ => false
-  cl sc.app.onHp || cl sc.app.onRr || cl sc.app.onRcf || cl sc.app.onBw || cl sc.app.onDc ||
-  sc.events.any fun e => match e with | .api o => cl [o] | .peerClose => true | _ => false
+/-- the connection was ended (by the application or the peer) during the history -/
+def ended (sc : Scenario) (obs : List Obs) : Bool :=
+  obs.any Obs.isTc || sc.events.any fun e => match e with | .peerClose => true | _ => false
 
 /-- scenario shape: one response head (written explicitly or implicitly, once), body writes,
     acknowledgements in arbitrary pieces. -/
@@ -44,7 +42,7 @@ def holds (sc : Scenario) (obs : List Obs) : Bool :=
   | some h =>
     walk sc.events h obs 0 0 0 &&
     -- not closed and everything acknowledged at the end: the sum is the body byte count
-    (if !closes sc && (match sc.events.getLast? with | some .ackAll => true | _ => false)
+    (if !ended sc obs && (match sc.events.getLast? with | some .ackAll => true | _ => false)
      then sumBw obs == (wire.length : Int) - h else true)
 
 end Qhttp.C18
